@@ -282,19 +282,18 @@ Definition sem_save (ve : venv) (m : send_amount) (acc : expr) (st : sstate) : s
   | SendAll ae =>
       sdo s <- eval_asset ve ae;
       sdo a <- eval_account ve acc;
-      if bal_has_account (s_bals st) a then
-        match bal_get (s_bals st) a s with
-        | Some z => if 0 <? z then SOk (with_bals st (bal_set (s_bals st) a s 0)) else SOk st
-        | None => SOk (with_bals st (bal_set (s_bals st) a s 0))
-        end
-      else SOk st
+      match bal_get (s_bals st) a s with
+      | Some z => if 0 <? z then SOk (with_bals st (bal_set (s_bals st) a s 0)) else SOk st
+      | None => SOk st
+      end
   | SendMon e =>
       sdo '(s, amt) <- eval_monetary ve e;
       sdo a <- eval_account ve acc;
       if amt <? 0 then SErr EOtherRun
-      else if bal_has_account (s_bals st) a then
-        SOk (with_bals st (bal_set (s_bals st) a s (match bal_get (s_bals st) a s with Some z => z | None => 0 end - amt)))
-      else SOk st
+      else match bal_get (s_bals st) a s with
+           | Some z => SOk (with_bals st (bal_set (s_bals st) a s (z - amt)))
+           | None => SOk st
+           end
   end.
 
 Definition sem_stmt (ve : venv) (s : stmt) (st : sstate) : sres sstate :=
